@@ -241,7 +241,9 @@ func judge16(c case16, real []any) []c16Failure {
 				}
 			}
 			no, nc := len(opts), len(ctors)
-			detail := func() J { return J{"builder": k, "field": name, "mode": mode, "options": no, "constructor_assignments": nc} }
+			detail := func() J {
+				return J{"builder": k, "field": name, "mode": mode, "options": no, "constructor_assignments": nc}
+			}
 			fixedHasOption := (mode == "constant" || mode == "own") && no > 0
 			if fixedHasOption {
 				add("FixedNeverOption", kind, detail())
